@@ -187,7 +187,11 @@ def run(ctx):
     ctx.transitions += d.generated
     ctx.extra["dump_cases"] = len(cases)
     from ..drive import gae
+    import numpy as np
+    import torch
 
+    torch.manual_seed(ctx.seed)          # network initialisation and minibatch shuffling (verdicts do not depend on them)
+    np.random.seed(ctx.seed)
     traces, expects = [], []
 
     def add(tr, roll):
@@ -248,6 +252,11 @@ def run(ctx):
             if any(got[tt + 1] != ex[tt] for tt in range(t["cfg"]["T"])):
                 raise RuntimeError(f"harness inconsistency: trace accepted but advantages differ from the dumped case: {t['cfg']}")
     ctx.extra["traces_accepted"] = sum(1 for v in vs if v.accepted)
+    full = sum(1 for t, v in zip(traces, vs) if v.accepted and any(
+        e["op"] == "flatten" and len(e["rows"]) == t["cfg"]["T"] * t["cfg"]["E"] * t["cfg"]["G"] for e in t["ev"]))
+    ctx.extra["accepted_traces_using_every_sample_once"] = full      # informative: C17 does not demand completeness
+    if full == 0:
+        raise Vacuous("no accepted trace carried a complete set of flattened rows")
 
     # ---- un-stubbed critic: the bootstrap value is the critic's value of the final next observation
     for j in range(12 if quick else 80):
